@@ -138,7 +138,7 @@ func (h *harness) merge(outs []*outcome) {
 
 type c12combo struct {
 	ci    int    // content index of the Put under test (id 1)
-	start string // empty | other | present | shorter | samesize | longer
+	start string // empty | other | present | trimmed | shorter | samesize | longer
 	src   string // "" | e<o> | s<o> | c<o> | E | k
 	now   string
 }
@@ -213,7 +213,7 @@ func c12combos() []c12combo {
 				srcs = append(srcs, fmt.Sprintf("%s%d", k, o))
 			}
 		}
-		for _, st := range []string{"empty", "other", "present", "shorter", "samesize", "longer"} {
+		for _, st := range []string{"empty", "other", "present", "trimmed", "shorter", "samesize", "longer"} {
 			if size == 0 && (st == "shorter" || st == "samesize") {
 				continue
 			}
@@ -291,6 +291,10 @@ func (w *worker) prepare(c c12combo) error {
 	}
 	if t.end != "done" {
 		return fmt.Errorf("setup did not finish: %s", t.end)
+	}
+	if c.start == "trimmed" { // what Trim leaves when only the output was old: the index entry without its data file
+		out := sha256.Sum256(content(c.ci))
+		os.Remove(filepath.Join(w.dir, fmt.Sprintf("%02x", out[0]), fmt.Sprintf("%x-d", out)))
 	}
 	if c.damaged() {
 		data := content(c.ci)
